@@ -222,3 +222,140 @@ lemma(
     uses=['bumble.l2cap:L2CAP_PDU.to_bytes@callee', 'bumble.l2cap:ClassicChannel.on_pdu'],
     inline=['L2CAP_PDU.__init__', 'L2CAP_PDU.from_bytes'],
 )
+
+
+# ---------------------------------------------------------------------------
+# set-up: per-handler contracts (the agreement of the two ends is a two-party property: not covered)
+# ---------------------------------------------------------------------------
+CR = l2cap.L2CAP_Configure_Response.Result
+
+
+def su_send_control(ghost, frame):
+    ghost.ctl = ghost.ctl + 1
+    ghost.ctl_last = frame
+
+
+def su_emit(ghost, event):
+    ghost.emits = ghost.emits + 1
+    ghost.emit_last = event
+
+
+def su_set_result(ghost, value):
+    ghost.resolved = ghost.resolved + 1
+
+
+def su_next_identifier(ghost, connection):
+    return ghost.ident
+
+
+model('ghost:Future#c08', fields={}, methods={'set_result': Callback('set_result', effect=su_set_result)})
+model('ghost:Mgr#setup', fields={}, methods={'next_identifier': Callback('next_identifier', effect=su_next_identifier)})
+model(
+    'bumble.l2cap:ClassicChannel#setup',
+    fields=dict(
+        manager=Inst('ghost:Mgr#setup'),
+        connection=CONN,
+        state=OneOf(CS.CLOSED, CS.WAIT_CONNECT_RSP, CS.WAIT_CONFIG, CS.WAIT_CONFIG_REQ_RSP, CS.WAIT_CONFIG_RSP, CS.WAIT_CONFIG_REQ, CS.WAIT_CONTROL_IND, CS.OPEN, CS.WAIT_DISCONNECT),
+        source_cid=IntRange(0, 0xFFFF),
+        destination_cid=IntRange(0, 0xFFFF),
+        connection_result=Opt(Inst('ghost:Future#c08')),
+    ),
+    methods={'send_control_frame': Callback('send_control_frame', effect=su_send_control), 'emit': Callback('emit', effect=su_emit)},
+)
+model('bumble.l2cap:L2CAP_Configure_Response', fields=dict(identifier=IntRange(0, 255), source_cid=IntRange(0, 0xFFFF), flags=Int, result=IntRange(0, 0xFFFF), options=Bytes))
+SU_GHOST = dict(ctl=Int, ctl_last=Any, emits=Int, emit_last=Any, resolved=Int, ident=IntRange(0, 255))
+
+contract(
+    'bumble.l2cap:ClassicChannel.on_configure_response',
+    prop='C08',
+    params=dict(self=Inst('bumble.l2cap:ClassicChannel#setup'), response=Inst('bumble.l2cap:L2CAP_Configure_Response')),
+    ghost=SU_GHOST,
+    ensures=lambda self, response, old, ghost: [
+        # the channel opens exactly when the peer accepts our configuration after we accepted the peer's
+        # (WAIT_CONFIG_RSP: our response to the peer's request has been sent)
+        iff(self.state == CS.OPEN and old.self.state != CS.OPEN, response.result == CR.SUCCESS and (old.self.state == CS.WAIT_CONFIG_RSP or old.self.state == CS.WAIT_CONTROL_IND)),
+        # 'open' is announced once, and the pending connect() is released, exactly then
+        ghost.emits == old.ghost.emits + (1 if self.state == CS.OPEN and old.self.state != CS.OPEN else 0),
+        implies(self.state == CS.OPEN and old.self.state != CS.OPEN, self.connection_result is None and ghost.resolved == old.ghost.resolved + (1 if old.self.connection_result is not None else 0)),
+        # our request accepted first: wait for the peer's request
+        implies(response.result == CR.SUCCESS and old.self.state == CS.WAIT_CONFIG_REQ_RSP, self.state == CS.WAIT_CONFIG_REQ),
+        # no other state change
+        implies(not (response.result == CR.SUCCESS and (old.self.state == CS.WAIT_CONFIG_REQ_RSP or old.self.state == CS.WAIT_CONFIG_RSP or old.self.state == CS.WAIT_CONTROL_IND)), self.state == old.self.state),
+        # unacceptable parameters: the request is repeated with the options the peer proposed
+        ghost.ctl == old.ghost.ctl + (1 if response.result == CR.FAILURE_UNACCEPTABLE_PARAMETERS else 0),
+    ],
+    ensures_names=['opens-iff-both-directions-configured', 'open-announced-once', 'connect-released', 'request-accepted-first', 'no-other-transition', 'reconfigure-on-unacceptable'],
+    modifies=['self.state', 'self.connection_result', 'ghost.ctl', 'ghost.ctl_last', 'ghost.emits', 'ghost.emit_last', 'ghost.resolved'],
+    inline=['ClassicChannel._change_state', 'ClassicChannel.__str__', 'L2CAP_Configure_Request.__init__', 'L2CAP_Control_Frame.*'],
+)
+
+
+# the option decoder: total (any byte string gives a list of (type, value) pairs, never an exception)
+from pyvc.contracts import TupleOf  # noqa: E402
+
+DECODE = dict(
+    params=dict(data=Bytes),
+    returns=ListOf(TupleOf(Int, Bytes)),
+    ensures=lambda data, res: [len(res) >= 0],
+    ensures_names=['total'],
+    modifies=[],
+)
+contract(
+    'bumble.l2cap:L2CAP_Control_Frame.decode_configuration_options',
+    prop='C08',
+    invariants={0: lambda options: [len(options) >= 0]},
+    decreases={0: lambda data: len(data)},
+    loop_locals={0: {'options': ListOf(TupleOf(Int, Bytes))}},
+    **DECODE,
+)
+contract('bumble.l2cap:L2CAP_Control_Frame.decode_configuration_options', key='bumble.l2cap:L2CAP_Control_Frame.decode_configuration_options@callee', **DECODE)
+
+
+# on_configure_request (profile 'skeleton': option values are uninterpreted; what is tracked is the channel state, the
+# control frames sent and the 'open' announcement)
+def su_send_control_k(ghost, frame):
+    ghost.ctl = ghost.ctl + 1
+    ghost.disc = ghost.disc + (1 if isinstance(frame, l2cap.L2CAP_Disconnection_Request) else 0)
+    ghost.rsp = ghost.rsp + (1 if isinstance(frame, l2cap.L2CAP_Configure_Response) else 0)
+
+
+model(
+    'bumble.l2cap:ClassicChannel#cfgreq',
+    fields=dict(
+        state=OneOf(CS.CLOSED, CS.WAIT_CONNECT_RSP, CS.WAIT_CONFIG, CS.WAIT_CONFIG_REQ_RSP, CS.WAIT_CONFIG_RSP, CS.WAIT_CONFIG_REQ, CS.OPEN, CS.WAIT_DISCONNECT),
+        connection_result=Opt(Inst('ghost:Future#c08')),
+    ),
+    methods={'send_control_frame': Callback('send_control_frame', effect=su_send_control_k), 'emit': Callback('emit', effect=su_emit)},
+)
+contract(
+    'bumble.l2cap:ClassicChannel.on_configure_request',
+    prop='C08',
+    profile='skeleton',
+    params=dict(self=Inst('bumble.l2cap:ClassicChannel#cfgreq'), request=Any),
+    ghost=dict(ctl=Int, disc=Int, rsp=Int, emits=Int, emit_last=Any, resolved=Int),
+    ensures=lambda self, old, ghost: [
+        # OPEN is entered only from WAIT_CONFIG_REQ (our own request has been accepted before), with one SUCCESS response sent
+        implies(self.state == CS.OPEN and old.self.state != CS.OPEN, old.self.state == CS.WAIT_CONFIG_REQ and ghost.emits == old.ghost.emits + 1 and ghost.disc == old.ghost.disc),
+        # a refused mode (mismatch / unsupported): a disconnection request is sent, no response, no 'open'
+        implies(ghost.disc > old.ghost.disc, self.state == CS.WAIT_DISCONNECT and ghost.disc == old.ghost.disc + 1 and ghost.rsp == old.ghost.rsp and ghost.emits == old.ghost.emits),
+        # a request in any other state is ignored
+        implies(old.self.state != CS.WAIT_CONFIG and old.self.state != CS.WAIT_CONFIG_REQ and old.self.state != CS.WAIT_CONFIG_REQ_RSP, self.state == old.self.state and ghost.ctl == old.ghost.ctl and ghost.emits == old.ghost.emits),
+        # at most one configuration response per request
+        ghost.rsp <= old.ghost.rsp + 1,
+    ],
+    ensures_names=['opens-only-after-own-request-accepted', 'refused-mode-disconnects', 'ignored-in-other-states', 'one-response'],
+    # malformed option values (an MTU option that is not 2 bytes, a short retransmission option, an empty FCS option:
+    # never built by bumble's send_configure_request) make struct / indexing raise: the channel is not opened by such a
+    # request; what the caller does with the exception is robustness (C17), not this property
+    # (skeleton profile: struct.pack of the uninterpreted own MTU / MPS in send_configure_request counts as possibly raising too)
+    raises={
+        struct.error: lambda self, old, ghost: [self.state != CS.OPEN or old.self.state == CS.OPEN, ghost.emits == old.ghost.emits, ghost.disc == old.ghost.disc],
+        IndexError: lambda self, old, ghost: [self.state == old.self.state, ghost.ctl == old.ghost.ctl, ghost.emits == old.ghost.emits],
+    },
+    invariants={0: lambda self, old, ghost: [self.state == old.self.state, ghost.ctl == old.ghost.ctl, ghost.disc == old.ghost.disc, ghost.rsp == old.ghost.rsp, ghost.emits == old.ghost.emits]},
+    loop_locals={0: {'replied_options': ListOf(TupleOf(Int, Bytes))}},
+    modifies=['self.*', 'ghost.ctl', 'ghost.disc', 'ghost.rsp', 'ghost.emits', 'ghost.emit_last', 'ghost.resolved'],
+    uses=['bumble.l2cap:L2CAP_Control_Frame.decode_configuration_options@callee'],
+    inline=['ClassicChannel._change_state', 'ClassicChannel._disconnect_sync', 'ClassicChannel._abort_connection_result', 'ClassicChannel.__str__',
+            'ClassicChannel.send_configure_request'],
+)
